@@ -8,6 +8,18 @@ CLAIMED = {
             "Theorems in lean/NodisVerif/Props/C14.lean: varint/uvarint round trip for every int64/uint64 with arbitrary trailing bytes, key codec round trip and injectivity for every name and deadline, round trip of all five value codecs for every well-formed value of every size (sorted sets incl. the rebuilt skiplist order, every non-NaN score bit pattern). The model's encoders/decoders are executed against ds.Key.Encode/DecodeKey, <type>.GetValue/SetValue and the storage entry envelope on boundary tables, random values and (thorough) every element length 0..16500; the buffer-independence clause is decided on the implementation by overwriting the source buffer after decoding.",
             "Lean kernel + propext/Classical.choice/Quot.sound; the correspondence run (generator quality bounds it); Go's encoding/binary is modelled (Varint.lean), not verified; buffer aliasing is decided by execution only (a pure model cannot exhibit it).",
             "DESIGN.md §6 C14"),
+    "C02": ("Lean 4 proof that the list model refines an abstract sequence specification (all indexes, counts, lengths, command sequences) + differential execution of the model against the real lists through the embedded API on both backends",
+            "Theorems in lean/NodisVerif/Props/C02.lean (56): the hand-maintained length counter always equals the number of elements; LRANGE/LINDEX/LSET/LTRIM/LREM/LINSERT/pops/pushes equal the Redis reference semantics on plain sequences for every Int index and count; whole command sequences refine the abstract sequence (step_refines, sequence_refines); rotation conserves the multiset; a list that becomes empty is unlinked from the index. The model is executed against the real code on exhaustive index pairs for short lists and on random command streams incl. eviction, expiry, reopen (memory + Pebble); the real linked list's pointer structure is checked by a hook after every dump.",
+            "Lean kernel + 3 standard axioms; correspondence run; pointer wiring of ds/list is checked on the implementation (VerifCheck), not proved; API-level theorems assume the key's value is in memory (cold keys are covered by correspondence only).",
+            "DESIGN.md §6 C02"),
+    "C03": ("Lean 4 proof of extensional map/set laws for the hash and set models (membership-based specifications, set algebra = mathematical ∩ ∪ \\) and of command-sequence refinement + differential execution against the real code",
+            "Theorems in lean/NodisVerif/Props/C03.lean (83): association lists as finite maps; HSET/HDEL/HMSET/HGETALL/HLEN/HEXISTS/HSTRLEN/HINCRBY and SADD/SREM/SCARD/SISMEMBER laws stated for every byte string incl. the empty one; SINTER/SUNION/SDIFF equal the mathematical operations with a missing key as the empty set, results duplicate-free; *STORE forms leave exactly the result (or no key) in the destination; SPOP/SRANDMEMBER are validated relationally (only current members, SPOP removes exactly what it returns); emptied collections are unlinked; whole command sequences refine the abstract map/set. Known findings (HINCRBY overflow wraps, SPOP negative count, empty collections via the embedded API) are replayed and printed.",
+            "Lean kernel + 3 standard axioms; correspondence run; tidwall/btree is modelled as a sorted association list; HINCRBYFLOAT only on integer-valued text (float text conversion is outside the model).",
+            "DESIGN.md §6 C03"),
+    "C04": ("Lean 4 proof of the sorted-set invariant (dictionary/index agreement, strict (score, member) order) for every operation sequence and of rank/score/range queries against the sorted-list specification + differential execution incl. a structural check of the real skiplist",
+            "Theorems in lean/NodisVerif/Props/C04.lean (43): ZSet.WF is preserved by every mutator for every non-NaN score, insertion order, tie and update (wf_run over arbitrary operation lists); the index chain equals the dictionary sorted by (score, member); ZCARD/ZSCORE/ZRANK/ZREVRANK/ZCOUNT/ZRANGEBYSCORE (all bound modes, LIMIT, both directions)/ZREMRANGEBYRANK/ZREMRANGEBYSCORE equal the specification on the sorted list. Rank windows of ZRANGE/ZREVRANGE are proved equal to the specification only on an explicit region (their 1-based behaviour is pinned by the repository's tests: known finding with closed forms and witnesses). The real skiplist (spans, levels, backward links, dictionary agreement) is validated by a hook after every dump, on exhaustive short sequences and on 400-member sets.",
+            "Lean kernel + 3 standard axioms; correspondence run; skiplist spans/levels/pointers are checked on the implementation, the model treats the skiplist as its level-0 chain; float order is modelled on IEEE bit patterns, float text conversion is not.",
+            "DESIGN.md §6 C04"),
 }
 NOT_YET = {
 }
